@@ -1,6 +1,7 @@
 package codec
 
 import (
+	"regexp"
 	"fmt"
 	"go/ast"
 	"go/token"
@@ -876,6 +877,28 @@ func (w *decWalker) ifStmt(t *ast.IfStmt, list []ast.Stmt, i *int) error {
 			}
 		}
 	}
+	// v := x.F … if v == nil { v = <init>; x.F = v }   (the same through a local that holds the field's value)
+	if be, ok := ast.Unparen(t.Cond).(*ast.BinaryExpr); ok && be.Op == token.EQL && t.Else == nil && t.Init == nil && len(t.Body.List) == 2 {
+		if id, ok := ast.Unparen(be.Y).(*ast.Ident); ok && id.Name == "nil" {
+			a1, ok1 := t.Body.List[0].(*ast.AssignStmt)
+			a2, ok2 := t.Body.List[1].(*ast.AssignStmt)
+			if ok1 && ok2 && a1.Tok == token.ASSIGN && a2.Tok == token.ASSIGN && len(a1.Lhs) == 1 && len(a2.Lhs) == 1 && len(a1.Rhs) == 1 && len(a2.Rhs) == 1 {
+				_, ov, e0 := w.lval(be.X)
+				_, o1, e1 := w.lval(a1.Lhs[0])
+				l2, o2, e2 := w.lval(a2.Lhs[0])
+				if e0 == nil && e1 == nil && e2 == nil && ov != nil && o1 == ov && o2 == nil && w.is(a2.Rhs[0], ov) && w.vals[ov] == w.fieldVal(l2) {
+					init, err := w.term(a1.Rhs[0])
+					if err != nil {
+						return err
+					}
+					nv := "ornew(" + w.vals[ov] + ", " + init + ")"
+					w.vals[ov] = nv
+					w.setField(l2, nv)
+					return nil
+				}
+			}
+		}
+	}
 	// if elementCount != 0 && len(x.F) == 0 { x.F = make([]T, 0, elementCount) }  (capacity hint)
 	if be, ok := ast.Unparen(t.Cond).(*ast.BinaryExpr); ok && be.Op == token.LAND && t.Else == nil && len(t.Body.List) == 1 {
 		if as, ok := t.Body.List[0].(*ast.AssignStmt); ok && as.Tok == token.ASSIGN {
@@ -1113,12 +1136,20 @@ func (w *decWalker) assign(t *ast.AssignStmt, list []ast.Stmt, i *int) error {
 		return err
 	}
 	if obj != nil {
+		// a fresh message held in a new local keeps the local's name as its identity (see summary)
+		if t.Tok == token.DEFINE && allocTermRe.MatchString(v) {
+			v += "@" + obj.Name()
+		}
 		w.vals[obj] = v
 	} else {
 		w.setField(l, v)
 	}
 	return nil
 }
+
+var allocTermRe = regexp.MustCompile(`^new\([A-Za-z0-9_.]+\)$`)
+var allocTagRe = regexp.MustCompile(`(new\([A-Za-z0-9_.]+\))@\w+`)
+var appendTaggedRe = regexp.MustCompile(`^append\((.+), (new\([A-Za-z0-9_.]+\)@\w+)\)$`)
 
 // innerLoop: `for idx < post { … }` — a packed run or a map-entry loop.
 func (w *decWalker) innerLoop(fs *ast.ForStmt) error {
@@ -1291,14 +1322,22 @@ func dropInner(eff []string) []string {
 
 // skipGuards checks `if (sk < 0) || (idx+sk) < 0 {ret}` and `if (idx+sk) > bound {ret}`.
 func (w *decWalker) skipGuards(g1s, g2s ast.Stmt, sk, bound types.Object) bool {
+	return w.skipGuardsAt(g1s, g2s, sk, bound, w.idx, nil)
+}
+
+// skipGuardsAt: `if sk < 0 || S < 0 {err}; if S > bound {err}` where S is base+sk written out or the local holding it.
+func (w *decWalker) skipGuardsAt(g1s, g2s ast.Stmt, sk, bound, base, end types.Object) bool {
 	g1, ok1 := g1s.(*ast.IfStmt)
 	g2, ok2 := g2s.(*ast.IfStmt)
-	if !ok1 || !ok2 || g1.Else != nil || g2.Else != nil || !w.isErrRet(g1.Body) || !w.isErrRet(g2.Body) {
+	if !ok1 || !ok2 || g1.Else != nil || g2.Else != nil || g1.Init != nil || g2.Init != nil || !w.isErrRet(g1.Body) || !w.isErrRet(g2.Body) {
 		return false
 	}
 	sum := func(x ast.Expr) bool {
+		if end != nil && w.is(x, end) {
+			return true
+		}
 		be, ok := ast.Unparen(x).(*ast.BinaryExpr)
-		return ok && be.Op == token.ADD && w.is(be.X, w.idx) && w.is(be.Y, sk)
+		return ok && be.Op == token.ADD && ((w.is(be.X, base) && w.is(be.Y, sk)) || (w.is(be.X, sk) && w.is(be.Y, base)))
 	}
 	or, ok := ast.Unparen(g1.Cond).(*ast.BinaryExpr)
 	if !ok || or.Op != token.LOR {
@@ -1313,18 +1352,24 @@ func (w *decWalker) skipGuards(g1s, g2s ast.Stmt, sk, bound types.Object) bool {
 	return ok && c.Op == token.GTR && sum(c.X) && w.is(c.Y, bound)
 }
 
-// skipBlock: idx = entryPre; skippy, err := runtime.Skip(dAtA[idx:]); guards; idx += skippy
+// skipBlock: the record that starts at `pre` is skipped as a whole and the cursor ends behind it, within `bound`:
+//   idx = pre; sk, err := runtime.Skip(buf[idx:]); err guard; sign and bound guards on idx+sk; idx += sk
+// or, without rewinding the cursor first,
+//   sk, err := runtime.Skip(buf[pre:]); err guard; [end := pre + sk]; guards on pre+sk / end; idx = pre+sk / end
 func (w *decWalker) skipBlock(list []ast.Stmt, pre, bound types.Object) bool {
 	info := w.info
-	if len(list) != 6 {
+	base := pre
+	if len(list) > 0 {
+		if a0, ok := list[0].(*ast.AssignStmt); ok && a0.Tok == token.ASSIGN && len(a0.Lhs) == 1 && w.is(a0.Lhs[0], w.idx) && w.is(a0.Rhs[0], pre) {
+			base = w.idx
+			list = list[1:]
+		}
+	}
+	if len(list) < 5 {
 		return false
 	}
-	a0, ok := list[0].(*ast.AssignStmt)
-	if !ok || !w.is(a0.Lhs[0], w.idx) || !w.is(a0.Rhs[0], pre) {
-		return false
-	}
-	a1, ok := list[1].(*ast.AssignStmt)
-	if !ok || len(a1.Lhs) != 2 {
+	a1, ok := list[0].(*ast.AssignStmt)
+	if !ok || len(a1.Lhs) != 2 || a1.Tok != token.DEFINE {
 		return false
 	}
 	call, ok := a1.Rhs[0].(*ast.CallExpr)
@@ -1332,19 +1377,42 @@ func (w *decWalker) skipBlock(list []ast.Stmt, pre, bound types.Object) bool {
 		return false
 	}
 	se, ok := ast.Unparen(call.Args[0]).(*ast.SliceExpr)
-	if !ok || !w.is(se.X, w.buf) || !w.is(se.Low, w.idx) || se.High != nil {
+	if !ok || !w.is(se.X, w.buf) || !w.is(se.Low, base) || se.High != nil {
 		return false
 	}
 	sk := info.ObjectOf(a1.Lhs[0].(*ast.Ident))
-	g0, ok := list[2].(*ast.IfStmt)
-	if !ok || !w.isErrRet(g0.Body) || types.ExprString(g0.Cond) != info.ObjectOf(a1.Lhs[1].(*ast.Ident)).Name()+" != nil" {
+	g0, ok := list[1].(*ast.IfStmt)
+	if !ok || g0.Init != nil || g0.Else != nil || !w.isErrRet(g0.Body) || types.ExprString(g0.Cond) != info.ObjectOf(a1.Lhs[1].(*ast.Ident)).Name()+" != nil" {
 		return false
 	}
-	if !w.skipGuards(list[3], list[4], sk, bound) {
+	rest := list[2:]
+	var end types.Object
+	if as, ok := rest[0].(*ast.AssignStmt); ok && as.Tok == token.DEFINE && len(as.Lhs) == 1 && len(as.Rhs) == 1 {
+		be, ok := ast.Unparen(as.Rhs[0]).(*ast.BinaryExpr)
+		if !ok || be.Op != token.ADD || !((w.is(be.X, base) && w.is(be.Y, sk)) || (w.is(be.X, sk) && w.is(be.Y, base))) {
+			return false
+		}
+		end = info.ObjectOf(as.Lhs[0].(*ast.Ident))
+		rest = rest[1:]
+	}
+	if len(rest) != 3 || !w.skipGuardsAt(rest[0], rest[1], sk, bound, base, end) {
 		return false
 	}
-	adv, ok := list[5].(*ast.AssignStmt)
-	return ok && adv.Tok == token.ADD_ASSIGN && w.is(adv.Lhs[0], w.idx) && w.is(adv.Rhs[0], sk)
+	adv, ok := rest[2].(*ast.AssignStmt)
+	if !ok || len(adv.Lhs) != 1 || len(adv.Rhs) != 1 || !w.is(adv.Lhs[0], w.idx) {
+		return false
+	}
+	if adv.Tok == token.ADD_ASSIGN {
+		return base == w.idx && w.is(adv.Rhs[0], sk)
+	}
+	if adv.Tok != token.ASSIGN {
+		return false
+	}
+	if end != nil && w.is(adv.Rhs[0], end) {
+		return true
+	}
+	be, ok := ast.Unparen(adv.Rhs[0]).(*ast.BinaryExpr)
+	return ok && be.Op == token.ADD && ((w.is(be.X, base) && w.is(be.Y, sk)) || (w.is(be.X, sk) && w.is(be.Y, base)))
 }
 
 // summary renders the effects of the interpreted statements.
@@ -1352,11 +1420,22 @@ func (w *decWalker) summary() string {
 	var parts []string
 	ls := append([]string{}, w.touched...)
 	sort.Strings(ls)
+	effects := append([]string{}, w.effects...)
+	for _, l := range ls {
+		// `e := new(T); x.F = append(x.F, e); unmarshal(bytes -> e)`: e is the element just appended
+		if m := appendTaggedRe.FindStringSubmatch(w.fields[l]); m != nil {
+			for i, e := range effects {
+				if e == "unmarshal(bytes -> "+m[2]+")" {
+					effects[i] = "unmarshal(bytes -> last(" + w.fields[l] + "))"
+				}
+			}
+		}
+	}
 	for _, l := range ls {
 		parts = append(parts, l+" := "+w.fields[l])
 	}
-	parts = append(parts, w.effects...)
-	return strings.Join(parts, "; ")
+	parts = append(parts, effects...)
+	return allocTagRe.ReplaceAllString(strings.Join(parts, "; "), "$1")
 }
 
 func (w *decWalker) reset() {
